@@ -22,6 +22,7 @@ EXPLANATION = (
     "write is '+1' on the previous value (monotone), and the test consults the self-producer relation and gate control as the accumulator rule "
     "requires; (R4) a stale-decision clear never removes an END decision (no restart after END). (R5) the set of ready gates whose targets are held back is taken before the producer-first deferral: a gate deferred behind the producer of its signal still blocks its targets, otherwise the body re-runs ungated and the gate is never evaluated. R3 also requires the per-parameter comparison; (R6) gate options such as default_open reach the gate (factories and constructors use every option they accept)."
     " (R7) a gate synchronised on an ordering signal re-decides only on a fresh signal: the freshness comparator (operands found by what they denote, through single-assignment locals) is strict."
+    " R3 also requires that both supersteps record consumed versions from (and collect inputs against) the step's start snapshot; R4 that the gated-node relation is derived from the gates' declared targets."
 )
 NOT_DECIDED = "That a loop runs exactly as many iterations as its gate dictates (a statement about decision sequences and values); fairness among several ready nodes."
 
